@@ -178,6 +178,8 @@ def run_check(prop, rules, tier, explanation, assumptions, trusted_base, nontriv
             known_findings_matched=[k for k, _ in known_hit],
             new_violations=[k for k, _ in new],
             notes=notes[:50],
+            ledger=["%s %s %s %s%s" % (r["cfg"], r["rule"], "ok " if r["status"] == "ok" else ("KF " if any(k == r.get("key") for k, _ in known_hit) else "BAD"), r["instance"][:140], (" @ " + r["where"].split(" ")[0]) if r["where"] else "") for r in records][:6000],
+            functions=sorted(fn_seen)[:600],
             tree_hash=factsmod.tree_hash(),
             exhaustive=False,
         ),
